@@ -27,7 +27,7 @@ func init() {
 			"(literal families: the literal's value). In the ASI matrix the reference tree is the oracle and the generator's prediction the self-check.",
 		Families: []engine.Family{
 			{Name: "pairs", Run: runPairs},
-			{Name: "triples", Run: runTriples, ThoroughOnly: true},
+			{Name: "triples", Run: runTriples},
 			{Name: "chains", Run: runChains},
 			{Name: "forheaders", Run: runForHeaders},
 			{Name: "statements", Run: runStatements},
